@@ -36,7 +36,8 @@ def scenario(draw) -> Dict[str, Any]:
     for s_ in services:
         s_['host_ttl'], s_['other_ttl'] = 120, 4500
         if draw(st.booleans()):
-            s_['server'], s_['addrs'] = 'host-a.local.', ['10.0.0.1']      # shared host
+            # shared host - the same host however its name is capitalised
+            s_['server'], s_['addrs'] = draw(st.sampled_from(['host-a.local.', 'host-a.local.', 'Host-A.local.', 'HOST-a.Local.'])), ['10.0.0.1']
     n = len(services)
     items: List[Tuple[int, int, Dict[str, Any]]] = []
     how = draw(st.sampled_from(['unregister', 'unregister', 'unregister2', 'close']))
